@@ -1666,7 +1666,7 @@ func (e *env) runHist(c *c10Case) ([]evObs, string, bool) {
 					marks[ev.Key] = setMark{a: a, b: b, ttl: *set}
 				}
 
-				// hypothesis of the soundness theorem: every ttl exceeds the measurement slack
+				// a ttl inside the duration of the request itself cannot be judged
 				if *set > 0 && *set <= d+2*msec {
 					ambi = true
 				}
@@ -2112,7 +2112,8 @@ func (e *env) genMix(r *vf.Rand, backend string) c10Case {
 }
 
 // ---------------------------------------------------------------- corpus (witnesses of the repaired findings first:
-// C10-F1 -> 637ae67, C10-F2 -> c971513, C10-F3 -> e0dc5e2; reverting a commit makes its witnesses fail)
+// C10-F1 -> 637ae67, C10-F2 -> c971513, C10-F3 -> e0dc5e2, C10-F4 -> a3cbbb3, C10-F5 -> 8647e06; re-introducing a
+// defect makes its witnesses fail)
 
 func corpus() []c10Case {
 	maxAge0 := &c10Resp{Method: "GET", Status: 200, CC: "max-age=0", Date: p64(0)}
